@@ -91,6 +91,7 @@ def run(out, info, tier, seed):
                                                   ('Sched.Guards / Sched.Final', 'Sched/Final')])
     out.coverage['nontrivial_rule'] = 'the step carrying the malformed reply was actually executed'
     out.coverage['type_spellings'] = spelling_family(out)
+    out.coverage['reused_reply_objects'] = stale_time_family(out)
 
 
 SPELLINGS = ['Time_Based', 'Time-based', ' time-based', 'TIME-BASED', 'time_based', 'timebased', 'Hybrid', 'EVENT-BASED']
@@ -116,6 +117,32 @@ def spelling_one(spelling, j):
     return dict(kind='spelling', spelling=spelling, step_index=j, observed=[f"simulator S0 announces type {spelling!r}, is started, and its malformed reply {bad} at step {j} ends in: {r.outcome[:120]} (S0 stepped at {steps})"])
 
 
+def stale_time_one(j, typ):
+    """an in-process simulator that hands mosaik the same reply dict at every get_data call and writes its 'time' entry only
+    once (at step 0): from step j on the entry is stale - earlier than the step - and the run must abort naming the simulator"""
+    from .. import simlib, tracelib
+    outs = {f'{t},0': [0 if t <= j - 1 else None, ['po']] for t in range(6)}       # 'time': 0 is written up to step j-1 and then left alone
+    beh0 = {'type': typ, 'step_size': 1, 'self_steps': {str(t): t + 1 for t in range(6)}, 'outputs': outs, 'default_output': [None, ['po']], 'reuse_reply': True}
+    case = dict(n=2, types=[typ, 'time-based'], grp=[[], []], edges=[dict(a=0, b=1, sa='po', da='i', kind='p', shift=0, init=False)],
+                until=5, beh=[beh0, {'type': 'time-based', 'step_size': 1, 'default_output': [None, ['po']]}], init=[], maxloop=100)
+    r = simlib.run_case(case, strategy='oldest', seed=0)
+    kind, who = tracelib.classify_outcome(r)
+    first_bad = 1                       # step 0 with time 0 is fine; at step 1 the entry (0) is earlier than the step
+    if kind == 'outtime' and who == 'S0': return None
+    return dict(kind='stale_time', step_index=j, sim_type=typ, observed=[f"S0 returns the same reply dict every time with a stale 'time' entry (0) from step {first_bad} on; run ended with: {r.outcome[:120]}"])
+
+
+def stale_time_family(out):
+    n = 0
+    for typ in ('time-based', 'hybrid'):
+        for j in (1, 2):
+            n += 1
+            v = stale_time_one(j, typ)
+            if v:
+                out.violations.append(v); return n
+    return n
+
+
 def spelling_family(out):
     n = 0
     for sp in SPELLINGS:
@@ -130,6 +157,11 @@ def spelling_family(out):
 def replay(path, out):
     import json
     r = json.load(open(path))
+    if r.get('kind') == 'stale_time':
+        v = stale_time_one(r['step_index'], r['sim_type'])
+        print(v['observed'] if v else 'the run aborted naming the offender')
+        if v: print(f'VIOLATION property=C13 replay={path}')
+        return 1 if v else 0
     if r.get('kind') == 'spelling':
         v = spelling_one(r['spelling'], r['step_index'])
         print(v['observed'] if v else 'refused at start, or the run aborted naming the offender')
